@@ -360,6 +360,11 @@ func (c *ctx) reuseEvents() {
 		c.emit(reuseEvent(fmt.Sprintf("part/MACPayload/%v", up), func() interface{} { return &lorawan.MACPayload{} },
 			func(p interface{}, b []byte) error { return p.(*lorawan.MACPayload).UnmarshalBinary(upp, b) },
 			func(p interface{}) interface{} { return wrap(p.(*lorawan.MACPayload)) }, full, hdr(nil)))
+		// ... and a full part after a full part (another port, other bytes): what was kept of the first keeps its port
+		full2 := append(append(hdr(fo), byte(201+c.rnd.Intn(50))), c.bytesN(1+c.rnd.Intn(8))...)
+		c.emit(reuseEvent(fmt.Sprintf("part/MACPayload2/%v", up), func() interface{} { return &lorawan.MACPayload{} },
+			func(p interface{}, b []byte) error { return p.(*lorawan.MACPayload).UnmarshalBinary(upp, b) },
+			func(p interface{}) interface{} { return wrap(p.(*lorawan.MACPayload)) }, full, full2))
 		c.emit(reuseEvent(fmt.Sprintf("part/FHDR/%v", up), func() interface{} { return &lorawan.FHDR{} },
 			func(p interface{}, b []byte) error { return p.(*lorawan.FHDR).UnmarshalBinary(upp, b) },
 			func(p interface{}) interface{} { return wrap(&lorawan.MACPayload{FHDR: *p.(*lorawan.FHDR)}) }, hdr(fo), hdr(nil)))
@@ -701,16 +706,42 @@ func (c *ctx) methodAliasEvents() {
 		fb, fback := withSpare(c.bytesN(1 + c.rnd.Intn(15)))
 		before := string(pback) + "|" + string(fback)
 		fp := uint8(1 + c.rnd.Intn(200))
+		// the two item lists are the caller's too: windows of larger slot arrays (spare capacity behind them, other items
+		// of the caller stored there); no operation may store anything into those arrays
+		foSlots, frmSlots := make([]lorawan.Payload, 6), make([]lorawan.Payload, 6)
+		for j := range foSlots {
+			foSlots[j], frmSlots[j] = &lorawan.DataPayload{Bytes: []byte{byte(j)}}, &lorawan.DataPayload{Bytes: []byte{byte(0x80 + j)}}
+		}
+		foSlots[0], frmSlots[0] = &lorawan.DataPayload{Bytes: fb}, &lorawan.DataPayload{Bytes: pb}
+		slotsBefore := append(append([]lorawan.Payload{}, foSlots...), frmSlots...)
+		slotsIntact := func() bool {
+			for j, x := range append(append([]lorawan.Payload{}, foSlots...), frmSlots...) {
+				if x != slotsBefore[j] {
+					return false
+				}
+			}
+			return true
+		}
 		phy := lorawan.PHYPayload{MHDR: lorawan.MHDR{MType: mt, Major: lorawan.LoRaWANR1}, MACPayload: &lorawan.MACPayload{
-			FHDR:  lorawan.FHDR{DevAddr: lorawan.DevAddr{1, 2, 3, 4}, FCnt: c.edge32(), FOpts: []lorawan.Payload{&lorawan.DataPayload{Bytes: fb}}},
-			FPort: &fp, FRMPayload: []lorawan.Payload{&lorawan.DataPayload{Bytes: pb}}}}
+			FHDR:  lorawan.FHDR{DevAddr: lorawan.DevAddr{1, 2, 3, 4}, FCnt: c.edge32(), FOpts: foSlots[:1]},
+			FPort: &fp, FRMPayload: frmSlots[:1]}}
 		k := c.key()
 		ev := M{"ev": "methodalias", "up": up, "steps": []interface{}{}}
 		steps := []interface{}{}
 		do := func(name string, f func() error) {
 			res, _ := observeFast(f)
-			steps = append(steps, M{"name": name, "err": res, "intact": string(pback)+"|"+string(fback) == before})
+			steps = append(steps, M{"name": name, "err": res, "intact": string(pback)+"|"+string(fback) == before && slotsIntact()})
 		}
+		do("MarshalBinary", func() error { _, err := phy.MarshalBinary(); return err })
+		do("MarshalJSON", func() error { _, err := phy.MarshalJSON(); return err })
+		do("ValidateMIC", func() error {
+			if up {
+				_, err := phy.ValidateUplinkDataMIC(lorawan.LoRaWAN1_1, 0, 1, 2, k, k)
+				return err
+			}
+			_, err := phy.ValidateDownlinkDataMIC(lorawan.LoRaWAN1_1, 0, k)
+			return err
+		})
 		do("EncryptFOpts", func() error { return phy.EncryptFOpts(k) })
 		do("EncryptFRMPayload", func() error { return phy.EncryptFRMPayload(k) })
 		do("SetMIC", func() error {
